@@ -89,7 +89,7 @@ CANARIES = [
     ('c01-drop-parens-wrapper', 'C01', 'mindsdb_sql/parser/ast/base.py', "        if self.parentheses:\n            return f'({some_str})'", "        if self.parentheses and not some_str.startswith('('):\n            return f'({some_str})'", 'C01.wrap.par1'),
     ('c01-alias-with-alias', 'C01', 'mindsdb_sql/parser/ast/base.py', "return f'{some_str} AS {self.alias.to_string(alias=False)}'", "return f'{some_str} AS {self.alias.to_string()}'", 'C01.wrap.'),
     ('c01-unreserve-word', 'C01', 'mindsdb_sql/parser/ast/select/identifier.py', "    'ORDER', 'BY', 'GROUP', 'PARTITION'\n}", "    'ORDER', 'BY', 'GROUP', 'PARTITION'\n}\nNOT_RESERVED = {'WINDOW', 'HAVING'}",  None),
-    ('c01-skip-reserved-with-digits', 'C01', 'mindsdb_sql/parser/ast/select/identifier.py', "        if '_' not in word:", "        if '_' not in word and not word.startswith('H'):", 'C01.reserved.'),
+    ('c01-skip-reserved-with-digits', 'C01', 'mindsdb_sql/parser/ast/select/identifier.py', "            if '_' not in word:", "            if word.startswith('H'):\n                continue\n            if '_' not in word:", 'C01.reserved.'),
     ('c01-between-lowercase-and', 'C01', 'mindsdb_sql/parser/ast/select/operation.py', "return f'{arg_strs[0]} BETWEEN {arg_strs[1]} AND {arg_strs[2]}'", "return f'{arg_strs[0]} BETWEEN {arg_strs[1]}, {arg_strs[2]}'", 'C01.'),
     ('c10-case-sensitive-again', 'C10', 'mindsdb_sql/planner/plan_join.py', "            if table.parts[0].lower() in self.planner.databases:\n                integration = table.parts.pop(0).lower()",
      "            if table.parts[0] in self.planner.databases:\n                integration = table.parts.pop(0)", 'C10.resolve.agree'),
@@ -121,7 +121,9 @@ CANARIES = [
     ('c15-allow-orderby', 'C15', 'mindsdb_sql/planner/plan_join_ts.py', "        if query.order_by:\n            raise PlanningException(", "        if query.order_by and False:\n            raise PlanningException(", 'C15.reject.order-by'),
     ('c08-limit-precedence-again', 'C08', 'mindsdb_sql/planner/plan_join.py', "if query_in.having is None and query_in.group_by is None and query_in.limit is not None:", "if query_in.having is None or query_in.group_by is None and query_in.limit is not None:", 'C08.limit.'),
     ('c08-outer-drops-having', 'C08', 'mindsdb_sql/planner/plan_join.py', "            query2.from_table = None\n            query2.using = None", "            query2.from_table = None\n            query2.having = None\n            query2.using = None", 'C08.outer.reapply'),
-    ('c08-no-or-guard', 'C08', 'mindsdb_sql/planner/plan_join.py', "        if 'or' in self.query_context['binary_ops']:\n            # not use conditions\n            conditions = []", "        if False:\n            conditions = []", 'C08.filter.context.or'),
+    ('c08-harmless-no-or-guard', 'C08', 'mindsdb_sql/planner/plan_join.py', "        if 'or' in self.query_context['binary_ops']:\n            # not use conditions\n            conditions = []", "        if False:\n            conditions = []", None),
+    ('c08-harmless-descend-into-or', 'C08', 'mindsdb_sql/planner/plan_join.py', "            if isinstance(node, BinaryOperation) and node.op.lower() == 'and':\n                for arg in node.args:\n                    _check_conjuncts(arg)", "            if isinstance(node, BinaryOperation) and node.op.lower() in ('and', 'or'):\n                for arg in node.args:\n                    _check_conjuncts(arg)", None),
+    ('c08-descend-into-not', 'C08', 'mindsdb_sql/planner/plan_join.py', "            elif isinstance(node, (BinaryOperation, BetweenOperation)):\n                self.check_node_condition(node)", "            elif isinstance(node, (BinaryOperation, BetweenOperation)):\n                self.check_node_condition(node)\n            elif isinstance(node, ast.UnaryOperation):\n                _check_conjuncts(node.args[0])", 'C08.filter.'),
     ('c14-target-as-arg', 'C14', 'mindsdb_sql/planner/plan_join.py', "                    if col_name.lower() == predict_target:\n                        # don't add predict target to parameters\n                        continue\n", "", 'C14.predictor.eq-target'),
     ('c14-keep-consumed', 'C14', 'mindsdb_sql/planner/plan_join.py', "                    # exclude condition\n                    el._orig_node.args = [Constant(0), Constant(0)]\n\n        # params for model", "\n        # params for model", 'C14.predictor.eq-const'),
     ('c14-params-case', 'C14', 'mindsdb_sql/planner/plan_join.py', "                    model_params[param.lower()] = value", "                    model_params[param] = value", 'C14.predictor.'),
